@@ -230,7 +230,8 @@ def check_tree(doc, rec, case, full=True):
                     for sub in (False, True):
                         rec.monitor("find")
                         cands = [c for c in raw_secs(s) if _match(c, key, typ, sub)]
-                        res = s.find(key=key, type=typ, findAll=find_all, include_subtype=sub)
+                        res = s.find(key, typ, find_all, sub) if (find_all + sub) % 2 else \
+                            s.find(key=key, type=typ, findAll=find_all, include_subtype=sub)
                         _judge(rec, "find", res, cands, find_all, case, "%r.find(%r,%r,all=%r,sub=%r)" % (_nm(s), key, typ, find_all, sub))
                     if kind(s) != "sec" and False:
                         continue
@@ -251,8 +252,12 @@ def check_tree(doc, rec, case, full=True):
                                 rel += anc if recur else anc[:1]
                         cands = [c for c in rel if _match(c, key, typ, False)]
                         dc = [c for c in dontcare if _match(c, key, typ, False)]
-                        res = s.find_related(key=key, type=typ, children=ch, siblings=sib, parents=par,
-                                             recursive=recur, findAll=find_all)
+                        if (len(str(key)) + find_all + recur) % 2:
+                            # the positional form of the documented signature
+                            res = s.find_related(key, typ, ch, sib, par, recur, find_all)
+                        else:
+                            res = s.find_related(key=key, type=typ, children=ch, siblings=sib, parents=par,
+                                                 recursive=recur, findAll=find_all)
                         _judge(rec, "find_related", res, cands, find_all, case,
                                "%r.find_related(%r,%r,ch=%r,sib=%r,par=%r,rec=%r,all=%r)" % (
                                    _nm(s), key, typ, ch, sib, par, recur, find_all), dc)
